@@ -2232,7 +2232,13 @@ class Engine:
     def e_GeneratorExp(self, node, env):
         # evaluated eagerly (the repository's generator expressions are pure filters/maps); the result still behaves as an
         # iterator for next()
-        return GenList(self.e_ListComp(node, env))
+        try:
+            return GenList(self.e_ListComp(node, env))
+        except self.models.SymSeqIteration as si:
+            g = node.generators
+            if len(g) == 1 and not g[0].ifs and not g[0].is_async:
+                return self.models.SymGen(si.seq, node, env)
+            raise Unsupported('generator expression over a symbolic sequence with filters or several clauses')
 
     def e_SetComp(self, node, env):
         return set(self.e_ListComp(node, env))
